@@ -26,7 +26,7 @@ PROPS["C09"] = dict(
     level_note="Trusted: system libogg, harness pager, packet-level decode as ground truth (itself covered by C01/C04). Links come from the bundled encoder.",
     rule="case = chain of k links (config, signal, N, comments, serial numbers, page layout per link) + callback read-size schedule + request-length schedule; "
          "non-trivial = k >= 2; distinct by hash of the chain description",
-    require_labels=["has zero-sample link", "has single-audio-page link", "first link single audio page, chained"],
+    require_labels=["link table re-read inside a later link", "has zero-sample link", "has single-audio-page link", "first link single audio page, chained"],
     assumptions=["system libogg 1.3.5 is correct"],
 )
 
@@ -239,7 +239,7 @@ PROPS["C06"] = dict(
 
 PROPS["C02"] = dict(
     engine="rc", engine_name="rc-tape", sources=["props/c02.cpp"], level="exploration", design_ref="3.2", tape_scale=6,
-    quick=dict(cases=900), thorough=dict(cases=40000, fuzz_seconds=300),
+    quick=dict(cases=900), thorough=dict(cases=20000, fuzz_seconds=300),
     technique="structure-aware fuzzing through the tape engine (rapidcheck-generated and shrunk; the same body runs under libFuzzer in the thorough tier): valid vgen/encoder headers and packets with field-level mutation at the exact bit positions of header fields, byte-level damage and generated call scripts; oracle = ASan/UBSan/LSan + 8 MiB stack + documented return-code sets + pcmout bounds + clear functions",
     level_text="Inputs: complete valid streams from vgen (every setup feature, up to 255 channels, 64..8192 blocks, ordered codebooks of up to 2^22 entries) or the encoder; 0..4 mutations: any setup/identification field overwritten with 0, 1, max, max-1, "
                "mid or random (positions logged by the header writer), truncation at any byte, bit flips, random bytes, reordered or replaced headers, damaged audio packets, perturbed b_o_s/e_o_s/granulepos/packetno. Scripts of 4..44 calls "
